@@ -741,6 +741,8 @@ class Path(parent.Geometry):
         )
 
         cache = {}
+        # don't hand over values from before an in-place edit
+        self._cache.verify()
         # try to copy the cache over to the new object
         try:
             # save dict keys before doing slow iteration
